@@ -20,6 +20,10 @@ type Plan struct {
 	MapOrder int    `json:"map_order"`
 	MapSeed  uint64 `json:"map_seed"`
 	Cmds     []*Cmd `json:"plan"`
+	// concurrent runs (C11): Cmds is the sequential set-up, Tasks the command
+	// lists of the concurrent callers, Sched the (seeded) scheduler
+	Tasks [][]*Cmd  `json:"tasks,omitempty"`
+	Sched *SchedCfg `json:"schedule,omitempty"`
 }
 
 // Replay is the file written for a violation (DESIGN.md appendix D).
@@ -290,12 +294,17 @@ func Trace(r *RunResult) []string {
 
 // WriteReplay writes the replay file of a violation and returns its path.
 func WriteReplay(dir string, p *Plan, r *RunResult, tier string, from int, known string, n int) (string, error) {
+	return WriteReplayTrace(dir, p, r, Trace(r), tier, from, known, n)
+}
+
+// WriteReplayTrace is WriteReplay with a caller-supplied trace.
+func WriteReplayTrace(dir string, p *Plan, r *RunResult, trace []string, tier string, from int, known string, n int) (string, error) {
 	rules := map[string]bool{}
 	for _, f := range r.Fails {
 		rules[f.Rule] = true
 	}
 	rp := &Replay{Plan: *p, Rule: strings.Join(sortedKeys(rules), ","), Tier: tier, Violation: r.Fails, FailStep: r.FailStep,
-		Trace: Trace(r), EventLogSHA: r.LogHash, MinimisedFrom: from, Known: known}
+		Trace: trace, EventLogSHA: r.LogHash, MinimisedFrom: from, Known: known}
 	if err := os.MkdirAll(dir, 0o755); err != nil {
 		return "", err
 	}
